@@ -128,6 +128,13 @@ P = {
         "single_timeout": 900,
         "min_budget": 40,
     },
+    "C11": {
+        "runs": {"quick": 3000, "thorough": 300000},
+        "budget_s": {"quick": 200, "thorough": 3300},
+        "rule": "one scenario = 1-3 logged-in sessions on one ftp service instance, interleaved by the choice tape, each issuing 1-12 of CWD/CDUP/PWD/MKD/RMD/DELE/RNFR+RNTO/STOR/APPE/RETR/LIST/NLST/MDTM/SIZE/STAT (and X-variants) with path arguments built from {a, b, .., ., '', SENTINEL, secret.txt} (1-5 components, absolute/relative, trailing separator) or from a list of odd paths; transfers open passive data connections over the simulated transport, some reset mid-transfer; a sentinel tree with unique contents is planted beside the service root on the real temp filesystem; distinct = distinct trace digest; non-trivial = always (every session changes directories or touches paths)",
+        "components": comp(real=["services/ftp (commands, passive sockets over simnet), services/filesystem Htfs RealPath/ChangeDir on a real temp dir"]),
+        "assumptions": ["the root contains no symlinks leaving it (none are planted)", "path mapping is sequential logic; the simulator contributes interleaved sessions and transfer faults"],
+    },
 }
 
 def get(prop):
